@@ -29,7 +29,11 @@ def run(ctx):
     sm = eng.walk("signing.wrap_as_signable")
     obj = P(sm.params[0])
     site = fn_site(eng, sm)
-    rets = [p for p in sm.paths if p.kind == "return"]
+    from . import refuted_at_defaults
+
+    # (paths that exist only when an optional parameter added after `obj` is given a non-default
+    # value are outside the documented call wrap_as_signable(obj))
+    rets = [p for p in sm.paths if p.kind == "return" and not refuted_at_defaults(eng, "signing.wrap_as_signable", (sm.params[0],), set(p.facts))]
     gate = all(State(facts=p.facts).holds(("type", obj, JSON_TYPES)) for p in rets) and bool(rets)
     ctx.ob("R1", "wrap-type-gate", site.loc(), "wrap_as_signable %s" % ("accepts only values whose exact type is one of the JSON-serializable types" if gate else "does not gate on the JSON-serializable types"), gate)
     ok, why = bool(rets), "no returning path"
@@ -189,6 +193,11 @@ def sign_signable_rules(ctx, rule):
             agg["target"] = False
             notes["target"] = "stored at %s" % show(tgt)[:120]
         sig = entry_dict(eng.expand(val), evs[: evs.index(ev)] if ev in evs else evs)
+        ve = eng.expand(val)
+        if is_lit(ve) and ve[3] is not None and "@default" in ve[3]:
+            agg["value"] = False
+            notes["value"] = "the entry stored is a mutable default argument: one object shared by every call (and every envelope signed)"
+            continue
         good, why2 = (False, "entry is %s" % show(val)[:80]) if sig is None else signature_hex(sig, w.priv, msg)
         if not good:
             agg["value"] = False
